@@ -32,6 +32,10 @@ func Equal(x, y any) bool {
 func equalValue(x, y reflect.Value) bool {
 	// Copied from src/reflect/deepequal.go, omitting the visited check (because JSON
 	// values are trees).
+
+	// The Go representation of a JSON value is irrelevant: step through
+	// interfaces and pointers on both sides before comparing.
+	x, y = indirectValue(x), indirectValue(y)
 	if !x.IsValid() || !y.IsValid() {
 		return x.IsValid() == y.IsValid()
 	}
@@ -42,33 +46,38 @@ func equalValue(x, y reflect.Value) bool {
 	if ok1 && ok2 {
 		return rx.Cmp(ry) == 0
 	}
-	if x.Kind() != y.Kind() {
+	if ok1 != ok2 {
+		// A number never equals a non-number (a json.Number has kind String).
 		return false
 	}
-	switch x.Kind() {
-	case reflect.Array:
-		if x.Len() != y.Len() {
-			return false
-		}
-		for i := range x.Len() {
-			if !equalValue(x.Index(i), y.Index(i)) {
-				return false
-			}
-		}
-		return true
+	// Arrays and slices both represent JSON arrays.
+	kx, ky := x.Kind(), y.Kind()
+	if kx == reflect.Array {
+		kx = reflect.Slice
+	}
+	if ky == reflect.Array {
+		ky = reflect.Slice
+	}
+	if kx != ky {
+		return false
+	}
+	switch kx {
 	case reflect.Slice:
-		if x.IsNil() != y.IsNil() {
+		bothSlices := x.Kind() == reflect.Slice && y.Kind() == reflect.Slice
+		if bothSlices && x.IsNil() != y.IsNil() {
 			return false
 		}
 		if x.Len() != y.Len() {
 			return false
 		}
-		if x.UnsafePointer() == y.UnsafePointer() {
-			return true
-		}
-		// Special case for []byte, which is common.
-		if x.Type().Elem().Kind() == reflect.Uint8 && x.Type() == y.Type() {
-			return bytes.Equal(x.Bytes(), y.Bytes())
+		if bothSlices {
+			if x.UnsafePointer() == y.UnsafePointer() {
+				return true
+			}
+			// Special case for []byte, which is common.
+			if x.Type().Elem().Kind() == reflect.Uint8 && x.Type() == y.Type() {
+				return bytes.Equal(x.Bytes(), y.Bytes())
+			}
 		}
 		for i := range x.Len() {
 			if !equalValue(x.Index(i), y.Index(i)) {
@@ -76,16 +85,6 @@ func equalValue(x, y reflect.Value) bool {
 			}
 		}
 		return true
-	case reflect.Interface:
-		if x.IsNil() || y.IsNil() {
-			return x.IsNil() == y.IsNil()
-		}
-		return equalValue(x.Elem(), y.Elem())
-	case reflect.Pointer:
-		if x.UnsafePointer() == y.UnsafePointer() {
-			return true
-		}
-		return equalValue(x.Elem(), y.Elem())
 	case reflect.Struct:
 		t := x.Type()
 		if t != y.Type() {
@@ -111,10 +110,20 @@ func equalValue(x, y reflect.Value) bool {
 		if x.UnsafePointer() == y.UnsafePointer() {
 			return true
 		}
+		ykt := y.Type().Key()
 		iter := x.MapRange()
 		for iter.Next() {
+			k := iter.Key()
+			if k.Type() != ykt {
+				// Keys of different string types (say, string and a named string type)
+				// denote the same JSON property name.
+				if k.Kind() != reflect.String || ykt.Kind() != reflect.String {
+					return false
+				}
+				k = k.Convert(ykt)
+			}
 			vx := iter.Value()
-			vy := y.MapIndex(iter.Key())
+			vy := y.MapIndex(k)
 			if !vy.IsValid() || !equalValue(vx, vy) {
 				return false
 			}
@@ -136,6 +145,15 @@ func equalValue(x, y reflect.Value) bool {
 	default:
 		panic(fmt.Sprintf("unsupported kind: %s", x.Kind()))
 	}
+}
+
+// indirectValue steps through interfaces and pointers.
+// It returns the invalid Value for a nil interface or pointer.
+func indirectValue(v reflect.Value) reflect.Value {
+	for v.Kind() == reflect.Pointer || v.Kind() == reflect.Interface {
+		v = v.Elem()
+	}
+	return v
 }
 
 // hashValue adds v to the data hashed by h. v must not have cycles.
